@@ -1,6 +1,6 @@
 /* VERIF-GROUP
 {
- "property": ["C15"],
+ "property": ["C15", "C17"],
  "entry": "h_skip_string",
  "enforce": ["skip_string"],
  "replace": [],
